@@ -641,3 +641,17 @@ def run(idx, rep, tier):
                   'sent: with zlib@openssh.com the SUCCESS packet itself is '
                   'deflated and the peer, still before authentication, '
                   'cannot decode it', k.loc(sus, sn))
+    # C02.R10: shared rule
+    from .c11 import r2 as _c11r2
+    rep.rule('C02.R10', 'deferred packets (= C11.R2): the queue is detached before it is replayed, so packets re-queued by a key exchange that starts during the replay are kept, in order - every payload is sent exactly once')
+    _before = len(rep.obligations)
+    _c11r2(k)
+    for o in rep.obligations[_before:]:
+        o.rule = 'C02.R10'
+    # C02.R11: shared rule
+    from .c06 import r2 as _c06r2
+    rep.rule('C02.R11', 'sequence numbers (= C06.R2): the strict-KEX flag is taken from the first KEXINIT only, the counters restart at NEWKEYS exactly when it is set, and the rollover guard is keyed on "no cipher in effect" - both sides keep computing MACs over the same sequence number across re-exchanges')
+    _before = len(rep.obligations)
+    _c06r2(k)
+    for o in rep.obligations[_before:]:
+        o.rule = 'C02.R11'
